@@ -1,38 +1,139 @@
-// Reference-only lemmas about GOST R 34.12-2015 L (experiments)
+// Reference-only lemmas about the linear transformation L of GOST R 34.12-2015 (bcref::kuznyechik), needed to
+// justify the fused-table ("LS table") technique of the sse2 / soft backends:
+//      L(S(x)) = XOR_i L(unit_i(pi(x_i)))          L^-1(S^-1(x)) = XOR_i L^-1(unit_i(pi^-1(x_i)))  (after S^-1: see below)
+// A monolithic statement "L(a ^ b) == L(a) ^ L(b)" is an equivalence of two large XOR networks and times out on
+// every SAT solver (> 10 min), so GF(2)-linearity is proved the way one proves it on paper:
+//   1. R is additive (one step, byte-local: 6 s);
+//   2. L = R^16 is additive: induction over the 16 steps; the induction step uses the instance of (1) at the
+//      current pair of states (`kani::assume` of an instance of a universally quantified, proved lemma excludes
+//      no execution; licensed by uses=);
+//   3. L(x) = XOR_i L(unit_i(x_i)): induction over the 16 bytes with the instance of (2) at each step.
+// Same for R^-1 / L^-1.
 //
 // @module file=kuznyechik/src/lib.rs
 use bcref::kuznyechik as kz;
 
 fn any_block() -> [u8; 16] { kani::any() }
 
-// @ob name=x_r_additive props=C07 kind=lemma timeout=600
+// @ob name=l_r_additive props=C07 kind=lemma fn=bcref::kuznyechik::r timeout=300
 #[kani::proof]
 #[kani::unwind(17)]
-fn x_r_additive() {
+fn l_r_additive() {
     let a = any_block();
     let b = any_block();
     assert!(kz::eq(&kz::r(&kz::xor(&a, &b)), &kz::xor(&kz::r(&a), &kz::r(&b))));
 }
 
-// @ob name=x_l_additive props=C07 kind=lemma timeout=600
+// @ob name=l_rinv_additive props=C07 kind=lemma fn=bcref::kuznyechik::r_inv timeout=300
 #[kani::proof]
 #[kani::unwind(17)]
-fn x_l_additive() {
+fn l_rinv_additive() {
     let a = any_block();
     let b = any_block();
+    assert!(kz::eq(&kz::r_inv(&kz::xor(&a, &b)), &kz::xor(&kz::r_inv(&a), &kz::r_inv(&b))));
+}
+
+// @ob name=l_l_additive props=C07 kind=lemma fn=bcref::kuznyechik::l uses=l_r_additive timeout=600
+#[kani::proof]
+#[kani::unwind(17)]
+fn l_l_additive() {
+    let a = any_block();
+    let b = any_block();
+    let (mut ta, mut tb, mut tab) = (a, b, kz::xor(&a, &b));
+    let mut k = 0;
+    while k < 16 {
+        // instance of l_r_additive at (ta, tb)
+        kani::assume(kz::eq(&kz::r(&kz::xor(&ta, &tb)), &kz::xor(&kz::r(&ta), &kz::r(&tb))));
+        ta = kz::r(&ta);
+        tb = kz::r(&tb);
+        tab = kz::r(&tab);
+        assert!(kz::eq(&tab, &kz::xor(&ta, &tb))); // invariant: R^k(a ^ b) = R^k(a) ^ R^k(b)
+        k += 1;
+    }
+    kani::cover!(a[0] == 1 && b[15] == 2);
     assert!(kz::eq(&kz::l(&kz::xor(&a, &b)), &kz::xor(&kz::l(&a), &kz::l(&b))));
 }
 
-// @ob name=x_l_decomp props=C07 kind=lemma timeout=600
+// @ob name=l_linv_additive props=C07 kind=lemma fn=bcref::kuznyechik::l_inv uses=l_rinv_additive timeout=600
 #[kani::proof]
 #[kani::unwind(17)]
-fn x_l_decomp() {
+fn l_linv_additive() {
     let a = any_block();
+    let b = any_block();
+    let (mut ta, mut tb, mut tab) = (a, b, kz::xor(&a, &b));
+    let mut k = 0;
+    while k < 16 {
+        kani::assume(kz::eq(&kz::r_inv(&kz::xor(&ta, &tb)), &kz::xor(&kz::r_inv(&ta), &kz::r_inv(&tb))));
+        ta = kz::r_inv(&ta);
+        tb = kz::r_inv(&tb);
+        tab = kz::r_inv(&tab);
+        assert!(kz::eq(&tab, &kz::xor(&ta, &tb)));
+        k += 1;
+    }
+    kani::cover!(a[0] == 1 && b[15] == 2);
+    assert!(kz::eq(&kz::l_inv(&kz::xor(&a, &b)), &kz::xor(&kz::l_inv(&a), &kz::l_inv(&b))));
+}
+
+// @ob name=l_l_decomp props=C07 kind=lemma fn=bcref::kuznyechik::l uses=l_l_additive timeout=900
+#[kani::proof]
+#[kani::unwind(17)]
+fn l_l_decomp() {
+    let a = any_block();
+    let mut p = [0u8; 16]; // bytes 0..i of a, rest zero
+    let mut acc = kz::l(&p); // XOR_{j<i} L(unit_j(a_j))   (L(0) computed, not assumed)
+    let mut i = 0;
+    while i < 16 {
+        let u = kz::unit(i, a[i]);
+        // instance of l_l_additive at (p, u)
+        kani::assume(kz::eq(&kz::l(&kz::xor(&p, &u)), &kz::xor(&kz::l(&p), &kz::l(&u))));
+        p = kz::xor(&p, &u);
+        acc = kz::xor(&acc, &kz::l(&u));
+        assert!(kz::eq(&kz::l(&p), &acc));
+        i += 1;
+    }
+    kani::cover!(a[0] == 1 && a[15] == 2);
+    assert!(kz::eq(&p, &a));
+    assert!(kz::eq(&kz::l(&a), &spec_l_by_bytes(&a)));
+}
+
+// @ob name=l_linv_decomp props=C07 kind=lemma fn=bcref::kuznyechik::l_inv uses=l_linv_additive timeout=900
+#[kani::proof]
+#[kani::unwind(17)]
+fn l_linv_decomp() {
+    let a = any_block();
+    let mut p = [0u8; 16];
+    let mut acc = kz::l_inv(&p);
+    let mut i = 0;
+    while i < 16 {
+        let u = kz::unit(i, a[i]);
+        kani::assume(kz::eq(&kz::l_inv(&kz::xor(&p, &u)), &kz::xor(&kz::l_inv(&p), &kz::l_inv(&u))));
+        p = kz::xor(&p, &u);
+        acc = kz::xor(&acc, &kz::l_inv(&u));
+        assert!(kz::eq(&kz::l_inv(&p), &acc));
+        i += 1;
+    }
+    kani::cover!(a[0] == 1 && a[15] == 2);
+    assert!(kz::eq(&p, &a));
+    assert!(kz::eq(&kz::l_inv(&a), &spec_linv_by_bytes(&a)));
+}
+
+/// XOR_i L(unit_i(a_i))
+pub fn spec_l_by_bytes(a: &[u8; 16]) -> [u8; 16] {
     let mut acc = [0u8; 16];
     let mut i = 0;
     while i < 16 {
         acc = kz::xor(&acc, &kz::l(&kz::unit(i, a[i])));
         i += 1;
     }
-    assert!(kz::eq(&kz::l(&a), &acc));
+    acc
+}
+/// XOR_i L^-1(unit_i(a_i))
+pub fn spec_linv_by_bytes(a: &[u8; 16]) -> [u8; 16] {
+    let mut acc = [0u8; 16];
+    let mut i = 0;
+    while i < 16 {
+        acc = kz::xor(&acc, &kz::l_inv(&kz::unit(i, a[i])));
+        i += 1;
+    }
+    acc
 }
